@@ -1,33 +1,82 @@
 import Tmv.Model.Syncer
-/-! Model of /repo statesync/stateprovider.go `lightClientStateProvider`: every answer is assembled
-from light blocks the light client verified (`VerifyLightBlockAtHeight`, a function parameter here —
-what the light client accepts is the subject of C09). The consensus parameters come through the
-verifying RPC client (C20) and are part of the opaque `rest`. -/
+/-! Model of /repo statesync/stateprovider.go `lightClientStateProvider` and of what
+node/node.go `startStateSync` does with its answers (state/store.go `Bootstrap`, store/store.go
+`SaveSeenCommit`, then consensus start).
+
+Every answer of the provider is assembled from light blocks the light client verified
+(`VerifyLightBlockAtHeight`, here the function parameter `lc` — what the light client accepts is
+the subject of C09) plus the consensus parameters, which come from an RPC server through the
+verifying RPC client (light/rpc `ConsensusParams`): validated, for the requested height, and their
+hash compared with the verified header's `ConsensusHash`. That hash (`types.HashConsensusParams`)
+covers ONLY `Block.MaxBytes` and `Block.MaxGas`. -/
 namespace Tmv.StateSync
 
+/-- `tmproto.ConsensusParams` (the fields that exist in v0.34) -/
+structure Params where
+  maxBytes : Int
+  maxGas : Int
+  timeIota : Int
+  evAgeBlocks : Int
+  evAgeDur : Int
+  evMaxBytes : Int
+  pubKeyTypes : List String
+  appVersion : Nat
+deriving DecidableEq, Repr
+
+/-- what `HashConsensusParams` hashes (`tmproto.HashedParams`) -/
+def Params.hashed (p : Params) : Int × Int := (p.maxBytes, p.maxGas)
+
+/-- `types.ValidateConsensusParams`; `maxBlock` is `types.MaxBlockSizeBytes` -/
+def Params.valid (maxBlock : Int) (p : Params) : Bool :=
+  !(p.maxBytes ≤ 0) && !(p.maxBytes > maxBlock) && !(p.maxGas < -1) && !(p.timeIota ≤ 0) &&
+  !(p.evAgeBlocks ≤ 0) && !(p.evAgeDur ≤ 0) && !(p.evMaxBytes > p.maxBytes) && !(p.evMaxBytes < 0) &&
+  !p.pubKeyTypes.isEmpty && p.pubKeyTypes.all (fun t => t = "ed25519" || t = "secp256k1")
+
+/-- a verified light block: the header fields the provider reads, the block id its commit signs,
+the hash of its validator set -/
 structure LightBlock where
   height : Nat
-  appHash : Bytes          -- header.AppHash
+  hash : Bytes             -- block id: header hash = commit.BlockID.Hash
+  appHash : Bytes
   appVersion : Nat         -- header.Version.App
-  commit : PCommit         -- signed header's commit
-  vals : Nat               -- validator set (opaque id)
+  vals : Bytes             -- ValidatorSet (identified by its hash)
+  lastResults : Bytes
+  consHashed : Int × Int   -- what header.ConsensusHash commits to
+deriving DecidableEq, Repr
+
+/-- answer of `/consensus_params` -/
+structure ParamsResp where
+  height : Int
+  params : Params
+deriving DecidableEq, Repr
+
+/-- the commit handed to the node: which block it signs -/
+structure LcCommit where
+  height : Nat
+  blockHash : Bytes
 deriving DecidableEq, Repr
 
 /-- the `sm.State` the provider assembles -/
 structure LcState where
   lastBlockHeight : Nat
+  lastBlockID : Bytes
   appHash : Bytes
   appVersion : Nat
-  lastValidators : Nat
-  validators : Nat
-  nextValidators : Nat
+  lastValidators : Bytes
+  validators : Bytes
+  nextValidators : Bytes
+  lastResults : Bytes
+  lastHeightValidatorsChanged : Nat
+  lastHeightParamsChanged : Nat
+  params : Params
+  initialHeight : Nat
 deriving DecidableEq, Repr
-
-variable (lc : Nat → ProvRes LightBlock)
 
 def reErr {α β : Type} : ProvRes α → ProvRes β
   | .noWitness => .noWitness
   | _ => .err
+
+variable (lc : Nat → ProvRes LightBlock)
 
 /-- `AppHash(height)`: the app hash after `height` is in the header of `height+1`; `height+2`
 must verify too -/
@@ -40,23 +89,105 @@ def lcAppHash (height : Nat) : ProvRes Bytes :=
   | e => reErr e
 
 /-- `Commit(height)` -/
-def lcCommit (height : Nat) : ProvRes PCommit :=
+def lcCommit (height : Nat) : ProvRes LcCommit :=
   match lc height with
-  | .ok b => .ok b.commit
+  | .ok b => .ok { height := b.height, blockHash := b.hash }
   | e => reErr e
 
-/-- `State(height)` -/
-def lcState (height : Nat) : ProvRes LcState :=
+/-- light/rpc `Client.ConsensusParams(height)` given the verified header's hashed parameters -/
+def checkParams (maxBlock : Int) (want : Nat) (trusted : Int × Int) : ProvRes ParamsResp → ProvRes Params
+  | .ok r =>
+    if !r.params.valid maxBlock then .err
+    else if r.height ≤ 0 then .err
+    else if r.height ≠ (want : Int) then .err
+    else if r.params.hashed ≠ trusted then .err
+    else .ok r.params
+  | e => reErr e
+
+/-- `State(height)`; `rpc` is the primary's `/consensus_params`, `ih` the configured initial height -/
+def lcState (maxBlock : Int) (rpc : Nat → ProvRes ParamsResp) (ih : Nat) (height : Nat) : ProvRes LcState :=
   match lc height with
   | .ok last =>
     match lc (height + 1) with
     | .ok cur =>
       match lc (height + 2) with
       | .ok next =>
-        .ok { lastBlockHeight := last.height, appHash := cur.appHash, appVersion := cur.appVersion,
-              lastValidators := last.vals, validators := cur.vals, nextValidators := next.vals }
+        match checkParams maxBlock cur.height cur.consHashed (rpc cur.height) with
+        | .ok p =>
+          .ok { lastBlockHeight := last.height, lastBlockID := last.hash, appHash := cur.appHash
+                appVersion := cur.appVersion, lastValidators := last.vals, validators := cur.vals
+                nextValidators := next.vals, lastResults := cur.lastResults
+                lastHeightValidatorsChanged := next.height, lastHeightParamsChanged := cur.height
+                params := p, initialHeight := if ih = 0 then 1 else ih }
+        | e => reErr e
       | e => reErr e
     | e => reErr e
   | e => reErr e
+
+/-! ## what the node does with the answers -/
+
+/-- the parts of the state store and block store that `Bootstrap` / `SaveSeenCommit` write and a
+starting node reads -/
+structure Stores where
+  vals : Nat → Option Bytes                      -- ValidatorsInfo with a full set
+  params : Nat → Option (Nat × Option Params)    -- ConsensusParamsInfo: last change height, params if stored
+  state : Option LcState                         -- stateKey
+  seen : Nat → Option LcCommit                   -- seen commit
+
+def Stores.empty : Stores := { vals := fun _ => none, params := fun _ => none, state := none, seen := fun _ => none }
+
+/-- `dbStore.Bootstrap` -/
+def bootstrap (s : Stores) (st : LcState) : Stores :=
+  let height := if st.lastBlockHeight + 1 = 1 then st.initialHeight else st.lastBlockHeight + 1
+  let v0 := if height > 1 ∧ st.lastValidators ≠ [] then upd s.vals (height - 1) (some st.lastValidators) else s.vals
+  let v1 := upd v0 height (some st.validators)
+  let v2 := upd v1 (height + 1) (some st.nextValidators)
+  -- saveConsensusParamsInfo(height, changeHeight, params): params are stored only at the change height
+  let pinfo := (st.lastHeightParamsChanged, if st.lastHeightParamsChanged = height then some st.params else none)
+  { s with vals := v2, params := upd s.params height (some pinfo), state := some st }
+
+/-- `BlockStore.SaveSeenCommit` -/
+def saveSeenCommit (s : Stores) (h : Nat) (c : LcCommit) : Stores := { s with seen := upd s.seen h (some c) }
+
+/-- `LoadConsensusParams` -/
+def loadParams (s : Stores) (h : Nat) : Option Params :=
+  match s.params h with
+  | some (_, some p) => some p
+  | some (chg, none) =>
+    match s.params chg with
+    | some (_, some p) => some p
+    | _ => none
+  | none => none
+
+inductive Crash | none | between | before
+deriving DecidableEq, Repr
+
+/-- the two writes of `startStateSync` after a successful `Sync`, cut by a crash.
+`commitFirst` is the order in /repo after the fix (seen commit, then state). -/
+def startWrites (commitFirst : Bool) (crash : Crash) (st : LcState) (c : LcCommit) : Stores :=
+  let w1 := fun (s : Stores) => if commitFirst then saveSeenCommit s st.lastBlockHeight c else bootstrap s st
+  let w2 := fun (s : Stores) => if commitFirst then bootstrap s st else saveSeenCommit s st.lastBlockHeight c
+  match crash with
+  | .before => Stores.empty
+  | .between => w1 Stores.empty
+  | .none => w2 (w1 Stores.empty)
+
+inductive Start
+  | stateSyncAgain          -- empty state: the node runs state sync again
+  | ok                      -- consensus.NewState reconstructs LastCommit from the seen commit
+  | panicNoSeenCommit       -- `reconstructLastCommit` panics: the node cannot start
+  | panicWrongCommit
+deriving DecidableEq, Repr
+
+/-- what a (re)starting node does with the stores -/
+def startNode (s : Stores) : Start :=
+  match s.state with
+  | none => .stateSyncAgain
+  | some st =>
+    if st.lastBlockHeight = 0 then .ok
+    else
+      match s.seen st.lastBlockHeight with
+      | none => .panicNoSeenCommit
+      | some c => if c.height = st.lastBlockHeight ∧ c.blockHash = st.lastBlockID then .ok else .panicWrongCommit
 
 end Tmv.StateSync
